@@ -32,7 +32,7 @@ CLAIMED = {
              "decided.",
         ref='3/C14', technique='finite-domain abstract interpretation of '
                                'version predicates, constant-folded schemas, '
-                               'documentation cross-check, path-sensitive _find_method with entry roles'),
+                               'documentation cross-check, path-sensitive _find_method with entry roles, Last-Modified value never None (path values through serialisers)'),
     'C02': dict(
         text="Three structural clauses: (1) the SQL candidate filter, the "
              "post-merge filter and the write-time check normalise to the "
@@ -87,7 +87,7 @@ CLAIMED = {
              "are not decided.",
         ref='3/C13', technique='constant-key dataflow between sibling '
                                'tables, clause-shape matching, CFG '
-                               'dominance, path-sensitive prefix/polarity decision of the value parsers'),
+                               'dominance, path-sensitive prefix/polarity decision of the value parsers, aggregate uuids handed on as sent on both sides'),
     'C15': dict(
         text="Inter-procedural may-raise over all 42 handler definitions "
              "(nothing but webob errors / NotFound / PolicyNotAuthorized "
@@ -98,7 +98,7 @@ CLAIMED = {
              "dominates writes; two-sided integer bounds before SQL.",
         ref='3/C15', technique='exception escape analysis over the call '
                                'graph, CFG dominance, source-to-sink '
-                               'conversion site enumeration, divisor fields vs schema minima, handler-reads-rebound-name scan'),
+                               'conversion site enumeration, divisor fields vs schema minima, handler-reads-rebound-name scan, KeyError-raising query lookups under a presence test'),
     'C17': dict(
         text="Retry decorators: closed table, argument values, position "
              "outside the writer decorator; no catch-all or DB-error handler "
@@ -108,7 +108,7 @@ CLAIMED = {
              "decided (fault-sequence property).",
         ref='3/C17', technique='decorator-order and argument checks, '
                                'handler-swallow analysis on CFGs, '
-                               'who-may-write scopes, no database access after the committed write (CFG reachability over effect summaries)'),
+                               'who-may-write scopes, no database access after the committed write (CFG reachability over effect summaries), retried functions are the outermost transaction scope'),
     'C18': dict(
         text="Given enginefacade scope joining (trusted), a crash leaves all "
              "or none of one transaction root: per handler at most one root "
@@ -145,7 +145,7 @@ CLAIMED = {
              "over histories is not decided.",
         ref='3/C01', technique='who-may-write effect table, CFG dominance, '
                                'normal-form comparison of guard predicates, '
-                               'constant-folded JSON schemas, stored-column source table for inventories, key = lookup text'),
+                               'constant-folded JSON schemas, stored-column source table for inventories, key = lookup text, one Allocation per provider and class (mapping-key enumeration)'),
     'C04': dict(
         text="Every write reachable from each of the 42 handler definitions "
              "lies below a writer scope; at most one transaction per request "
@@ -157,7 +157,7 @@ CLAIMED = {
              "trace of a rejected write'; rollback itself is trusted.",
         ref='3/C04', technique='SQL effect extraction + transaction-root '
                                'reachability on the call graph, cleanup '
-                               'pairing over CFG, may-raise analysis'),
+                               'pairing over CFG, may-raise analysis, unconditional compensation delete'),
     'C05': dict(
         text="Compare-and-swap shape of the provider generation increment; "
              "dominance of the early generation comparison over the mutator "
@@ -168,7 +168,7 @@ CLAIMED = {
              "with DBMS atomicity these are the conditions the schedule "
              "statement rests on.",
         ref='3/C05', technique='statement-shape matching on the SQL builder, '
-                               'CFG dominance, may-raise escape analysis'),
+                               'CFG dominance, may-raise escape analysis, retry scope never re-runs the compare-and-swap with a left-over generation'),
     'C06': dict(
         text="CAS shape of the consumer increment; under the 1.28 gate every "
              "consumer loaded from the database reaches the write only "
@@ -198,7 +198,7 @@ CLAIMED = {
              "from the mutated object.",
         ref='3/C10', technique='must-pass-through on per-function CFGs over '
                                'SQL effects, zero-match who-may-write rule '
-                               'with positive control'),
+                               'with positive control, nothing refuses after the wrapped handler call returned'),
     'C16': dict(
         text="Exhaustive over all 37 route/method pairs and all 42 handler "
              "definitions: route table <-> documented policy operations <-> "
@@ -211,7 +211,7 @@ CLAIMED = {
              "of the code on every path, which no request sample covers.",
         ref='3/C16', technique='AST who-may-call + CFG dominance/must-pass '
                                'over resolved call graph; constant-folded '
-                               'route and policy tables, path-sensitive decision of the 401 middleware, policy option scan'),
+                               'route and policy tables, path-sensitive decision of the 401 middleware, policy option scan, deprecated rule names disjoint from registered names'),
 }
 
 CLAIMED['C11'] = dict(
@@ -236,7 +236,7 @@ CLAIMED['C11'] = dict(
     ref='3/C11', technique='writer/reader table agreement over constant-'
                            'folded schemas, SQL effect extraction, labelled '
                            'column flow into constructors, frozen '
-                           'normalised SQL shapes, documentation cross-check')
+                           'normalised SQL shapes, documentation cross-check, parsed body not written to where key presence decides')
 
 CLAIMED['C03'] = dict(
     text="Structural necessary conditions of 'exactly the combinations the "
@@ -259,7 +259,7 @@ CLAIMED['C03'] = dict(
          "have their reviewed SQL shapes.",
     ref='3/C03', technique='attribute def-use agreement between sibling '
                            'search paths, branch-literal must-pass queries, '
-                           'builder views, reviewed SQL predicate shapes')
+                           'builder views, reviewed SQL predicate shapes, aggregate filter: unknown uuids ignored, uuids matched as sent')
 NOT_APPLICABLE = {
     'C11': "functional correctness of ~40 handlers against a reference model "
            "of the whole API over all histories; quantifies over runtime "
